@@ -170,6 +170,15 @@ def boundary_catalogue():
                     W = {"n": 2, "components": comps}
                     if wfgen.unique_after_expansion(W) and wfgen.name_ok(other):
                         out.append(W)
+    # the same component name in two stages, consumed through textually identical RELATIVE references by a replicated
+    # component of each stage (the text means a different producer in each stage)
+    for path in (None, "conf.txt"):
+        for rep_stage in (0, 1):
+            comps = [_comp("Prepare", 0), _comp("Sim", 0, refs=[{"p": 0, "path": path}],
+                                                replicate="lit" if rep_stage == 0 else None),
+                     _comp("Prepare", 1), _comp("Sim", 1, refs=[{"p": 2, "path": path}],
+                                                replicate="lit" if rep_stage == 1 else None)]
+            out.append({"n": 2, "components": comps})
     return out
 
 
